@@ -78,7 +78,9 @@ theorem flow_facts :
     Generated.facts.allGetStateHaveHeader = true ∧ Generated.facts.idFromMemoize = true ∧
     Generated.facts.schemaCarriesProtocolAndVersion = true ∧ Generated.facts.memberNamesFlat = true ∧
     Generated.facts.memberWrittenOnce = true ∧ Generated.facts.dumpSavesFirst = true ∧
-    Generated.facts.dumpsSavesFirst = true ∧ Generated.facts.saveWritesOnlyBuffer = true := by decide
+    Generated.facts.dumpsSavesFirst = true ∧ Generated.facts.saveWritesOnlyBuffer = true ∧
+    -- member names are object ids: they are unique because `memoize` keeps every object it names alive
+    Generated.facts.memoizeKeepsReference = true := by decide
 
 example : ∃ a, run {} [.writeNew "1.npy", .writeNew "u.bin", .referAgain "1.npy"] = some a ∧ a.members.length = 2 :=
   ⟨_, rfl, rfl⟩
